@@ -261,7 +261,7 @@ func collectTVarFTypeWithSet(visited SSet, recs []string, ft FType) []string {
 		}))
 	case FType_FUnion:
 		ut := _v9.Value
-		uname := utName(ut)
+		uname := uniToKey(ut)
 		return frt.IfElse(SSetHasKey(visited, uname), (func() []string {
 			return slice.New[string]()
 		}), (func() []string {
@@ -476,9 +476,9 @@ func transTVFTypeWithSet(visited SSet, recs []string, transTV func(TypeVar) FTyp
 		}))
 	case FType_FUnion:
 		ut := _v17.Value
-		uname := utName(ut)
+		uname := uniToKey(ut)
 		return frt.IfElse(SSetHasKey(visited, uname), (func() FType {
-			return ftp
+			return New_FType_FUnion(UnionType{Name: ut.Name, Targs: slice.Map(recurse, ut.Targs)})
 		}), (func() FType {
 			SSetPut(visited, uname)
 			cases := utCases(ut)
